@@ -96,6 +96,7 @@ package encoding
 //@   ensures[C03] err == nil && rkind(rbase(v)) == 24 ==> q.r.pos == old(q.r.pos) + 4 + len(string(rbase(v).rval)) && holdsStr(q.r.data, old(q.r.pos), string(rbase(v).rval))
 //@   ensures[C03] err == nil && rkind(rbase(v)) == 23 ==> q.r.pos >= old(q.r.pos) + 4 && 0 <= rbase(v).rlen && u32(int32(rbase(v).rlen)) == le32(q.r.data, old(q.r.pos))
 //@   ensures[C03] err == nil && rkind(rbase(v)) == 21 ==> q.r.pos >= old(q.r.pos) + 4
+//@   ensures[C03] err != nil && 1 <= rkind(rbase(v)) && rkind(rbase(v)) <= 14 ==> q.r.short
 //@   loop 1:
 //@     invariant 0 <= i && l == rnfield(old(v)) && rkind(old(v)) == 25 && 0 <= q.r.pos && q.r.pos <= q.r.len
 //@     invariant forall rr io.Reader {rr.pos} :: rr.pos >= old(rr.pos) && (old(rr.pos) <= rr.len ==> rr.pos <= rr.len)
@@ -111,6 +112,9 @@ package encoding
 //@   ensures[C08] forall rr io.Reader {rr.short} :: (rr.short ==> err != nil || old(rr.short)) && (old(rr.short) ==> rr.short)
 //@   ensures forall t reflect.Value {t.rlen} :: old(allocated(rroot(t))) && !within(t, v) ==> t.rlen == old(t.rlen)
 //@   ensures[C03] err == nil ==> q.r.pos >= old(q.r.pos) + 4 && 0 <= v.rlen && u32(int32(v.rlen)) == le32(q.r.data, old(q.r.pos))
+// completeness for lists of fixed-width scalars: the only refusals that are not short reads are a
+// count above the limit (or negative) and a destination that cannot be grown
+//@   ensures[C03] err != nil && !q.r.short && 1 <= tkind(telemt(rtype(v))) && tkind(telemt(rtype(v))) <= 14 ==> le32(q.r.data, old(q.r.pos)) > 4096 || (le32(q.r.data, old(q.r.pos)) > old(v.rcap) && !rset(v))
 //@   call MakeSlice#1: assert[C07] arg1 <= 4096
 //@   call MakeSlice#2: assert[C07] arg1 <= 4096
 //@   loop 1:
@@ -145,6 +149,7 @@ package encoding
 //@   ensures[C08] forall rr io.Reader {rr.short} :: (rr.short ==> err != nil || old(rr.short)) && (old(rr.short) ==> rr.short)
 //@   ensures forall t reflect.Value {t.rlen} :: old(allocated(rroot(t))) ==> t.rlen == old(t.rlen)
 //@   ensures[C03] err == nil && tkind(ref(typ)) != 20 ==> fresh(rroot(v))
+//@   ensures[C03] err != nil && 1 <= tkind(ref(typ)) && tkind(ref(typ)) <= 14 ==> q.r.short
 
 // Top-level entry points: the fast paths for plain Go scalars write / read the same images.
 //@ func (q qiEncoder) Encode(x interface{}) (err error)
